@@ -18,7 +18,7 @@ MANIFEST = {
              'Equality "as numbers" beyond real-arithmetic identity (summation order) is out of scope.'),
 }
 EXPLANATION = 'Whole-step SVN: argument terms at the consist call, accumulator relations with the same dt, getter terms.'
-RULES = ['C11-1.handoff', 'C11-2.accum', 'C11-3.dt', 'C11-4.getters']
+RULES = ['C11-1.handoff', 'C11-2.accum', 'C11-3.dt', 'C11-4.getters', 'C11-5.loco']
 ASSUMPTIONS = ['identities over the reals']
 
 SIMS = ['SetSpeedTrainSim::solve_step', 'SpeedLimitTrainSim::solve_step']
@@ -27,6 +27,9 @@ CONSIST_SOLVE = 'Consist::solve_energy_consumption'
 
 def run(ctx):
     prog = ctx.prog
+    # the power a locomotive reports is what its drivetrain delivered (so that the locomotives' powers sum to the consist's)
+    from .C01 import loco_pwr_out_arms
+    loco_pwr_out_arms(ctx, 'C11-5.loco')
     eng = engine(ctx)
     n = 0
     for fid in SIMS:
